@@ -105,6 +105,10 @@ def run(index, rep, tier):
     with rep.section("R03.2 raise after restructuring"):
         rep.floor("R03.2", "explicit raises in tree-model methods that restructure", 8, raise_after_restructure_rule(index, rep, "R03.2", [TM + "_tree", TM + "_node", TM + "_edge"]))
 
+    # ---------------- R03.2 single placement
+    with rep.section("R03.2 single placement"):
+        rep.floor("R03.2", "placements of a node into a child list by add_child / insert_child", 2, single_placement_rule(index, rep, "R03.2"))
+
     # ---------------- R03.2 failure atomicity
     with rep.section("R03.2 failure atomicity"):
         rep.floor("R03.2", "explicit raises in the link book-keeping functions", 4, failure_atomicity_rule(index, rep, "R03.2", sorted(LINK_WRITERS)))
@@ -610,6 +614,30 @@ def raise_after_restructure_rule(index, rep, rid, modules):
                 rep.check(bad is None, rid, fi.qualname, "`%s` can follow the structural change `%s`" % (norm_stmt(r)[:50], norm_stmt(bad.stmt)[:40] if bad is not None else ""), fn_where(fi, r),
                           "%s: `%s` is raised before any structural change" % (fi.name, norm_stmt(r)[:50]),
                           "%s can raise `%s` after it has already executed `%s`: the caller gets the documented error, but the tree has been changed (a node detached, a taxon lost, a unifurcation left behind) - an operation that refuses must leave the tree well formed and as it was" % (fi.qualname, norm_stmt(r)[:70], norm_stmt(bad.stmt)[:60] if bad is not None else ""))
+    return n
+
+
+def single_placement_rule(index, rep, rid):
+    """A node is listed once among its parent's children: add_child / insert_child place `node` into the child list only
+    after looking it up there (membership test or .index()), on every path."""
+    n = 0
+    for q in (NODE + ".add_child", NODE + ".insert_child"):
+        f = index.function(q)
+        nodep = [p_ for p_ in f.params if p_ not in ("self", "index")][-1]
+        cfg = cfg_of(f)
+        def looks_up(x, nodep=nodep):
+            if x.kind == "test" and isinstance(x.ast, ast.Compare) and isinstance(x.ast.ops[0], (ast.In, ast.NotIn)) and norm(x.ast.left) == nodep and norm(x.ast.comparators[0]).endswith("_child_nodes"):
+                return True
+            return any(isinstance(c.func, ast.Attribute) and c.func.attr == "index" and norm(c.func.value).endswith("_child_nodes") and c.args and norm(c.args[0]) == nodep for c in node_calls(x))
+        places = [x for x in cfg.nodes if any(isinstance(c.func, ast.Attribute) and c.func.attr in ("append", "insert") and norm(c.func.value).endswith("_child_nodes")
+                                               and c.args and norm(c.args[-1]) == nodep for c in node_calls(x))]
+        if not places:
+            raise AnalysisError("%s: %s places its node nowhere recognisable" % (rid, q))
+        for pl in places:
+            n += 1
+            ok = cfg.dominated_by(pl, looks_up, follow_exc=True)
+            rep.check(ok, rid, f.qualname, "node placed in the child list without looking it up first: %s" % norm_stmt(pl.stmt)[:50], fn_where(f, pl.stmt), "%s: `%s` comes after the look-up of `%s` in the child list" % (f.name, norm_stmt(pl.stmt)[:40], nodep),
+                      "%s can execute `%s` without first checking whether `%s` is already among the children: moving an existing child (e.g. to the end) then lists it twice - a node with two entries in one child list, visited twice by every traversal" % (f.qualname, norm_stmt(pl.stmt)[:60], nodep))
     return n
 
 
